@@ -25,7 +25,10 @@ class ParConsSuite(Suite):
         prs = gen.all_partial_rankings([0, 1, 2])
         for _ in range(60 if tier == "quick" else 600):
             cases.append({"s": opt_scheme(rng), "D": [rng.choice(prs) or [[0]], rng.choice(prs), rng.choice(prs)]})
-        for _ in range(220 if tier == "quick" else 2500):
+        for _ in range(90 if tier == "quick" else 1200):
+            cases.append({"s": rng.choice([gen.UNIFYING, gen.UNIFYING, gen.EXTENDED, gen.UNIFYING_HALF, gen.GENERIC]),
+                          "D": sparse_component_dataset(rng, 5 if tier == "quick" else 7)})
+        for _ in range(160 if tier == "quick" else 2500):
             nmax = rng.choice([4, 5, 6, 6]) if tier == "quick" else rng.choice([5, 6, 7, 7])
             cases.append({"s": opt_scheme(rng), "D": layered_dataset(rng, nmax, 5) if rng.random() < 0.7 else gen.random_dataset(rng, nmax, 5)})
         return cases
@@ -79,6 +82,7 @@ if __name__ == "__main__":
     main("C06", [ParConsSuite()],
          level_note="the ILP solver (CBC through PuLP) and igraph's SCC routine are outside the model: their answers are judged per run "
                     "against the verified brute-force optimum (universes <= 6, thorough 7) and the verified no-back-arc test",
-         rule="one F2 witness; 3-ranking datasets over {0,1,2}; layered datasets (several components, rankings missing whole layers, some "
+         rule="one F2 witness; sparse-component datasets (a component of 3-4 conflicting elements and 2-4 rankings ranking none of them, "
+              "schemes with B5 != T5); 3-ranking datasets over {0,1,2}; layered datasets (several components, rankings missing whole layers, some "
               "rankings breaking the layering) and random datasets up to 6 (7) elements; schemes biased to B5 != T5; four ParCons "
               "configurations per dataset (bound 80 / 0 / 1 with KwikSort / 2 with BioConsert). non-trivial = >= 3 elements")
